@@ -225,6 +225,24 @@ func c19Run(c *Ctx) {
 		{"runtime-zero-div", Print("1 / 0")},
 		{"runtime-undefined", Print("নেই")},
 		{"runtime-in-function", Fun("f", "", " "+Ret("nil.k")+" ") + " f();"},
+		{"runtime-index-write-fraction", Var("arr", "[1, 2, 3]") + " arr[1.5] = 0;"},
+		{"runtime-index-write-string", Var("arr", "[1, 2, 3]") + ` arr["x"] = 0;`},
+		{"runtime-index-read-high", Var("arr", "[1, 2, 3]") + " " + Print("arr[3]")},
+		{"runtime-index-write-high", Var("arr", "[1, 2, 3]") + " arr[3] = 0;"},
+		{"runtime-property-missing", Var("ob", "{k: 1}") + " " + Print("ob.zz")},
+		{"runtime-property-on-number", "(5).k = 1;"},
+		{"runtime-not-callable", `"s"();`},
+		{"runtime-arity", Fun("g2", "a, b", " "+Ret("a")+" ") + " g2(1);"},
+		{"runtime-type-mismatch", Print("nil + 1")},
+		{"runtime-negative-shift", Print("1 << -1")},
+		{"runtime-redeclare", Var("dd", "1") + " " + Var("dd", "2")},
+		{"runtime-undefined-assign", "nope = 1;"},
+		{"runtime-builtin-len", Print(BI("len", "5"))},
+		{"runtime-builtin-remove", Print(BI("remove", "[1]", "4"))},
+		{"runtime-builtin-delete", BI("delete", "{}", `"k"`) + ";"},
+		{"runtime-stray-break", Break()},
+		{"runtime-stray-return", Ret("1")},
+		{"runtime-in-loop", For(Var("li", "0"), "li < 3", "li = li + 1", "{ "+Print("li")+" "+Print("1 % 0")+" }")},
 		{"syntax-missing-operand", Print("1 +")},
 		{"syntax-stray-paren", ")"},
 		{"syntax-unclosed-block", "{"},
@@ -271,7 +289,7 @@ func c19Run(c *Ctx) {
 		}
 	}
 	// error position: first / middle / last line of a longer program
-	for _, t := range tails[1:12] {
+	for _, t := range tails[1:30] {
 		for _, pos := range []int{0, 5, 10} {
 			var b []string
 			for i := 0; i < 11; i++ {
@@ -310,7 +328,7 @@ func c19Run(c *Ctx) {
 func init() {
 	register(&CheckDef{
 		ID:          "C19",
-		Rule:        "runs of the plain binary: 21 command-line shapes (no argument, .bn names incl. '.bn', dotted, spaced and Bangla names, nested directory; .BN, .bn.txt, no extension, near-miss extensions; 2 and 3 arguments whose scripts would print a marker; missing file, directory named d.bn; thorough: open failures injected with strace); programs of every outcome class (clean, runtime error of 3 kinds, syntax error of 2 kinds, lexical error of 2 kinds, failing ইনপুট) with 0-4 ইনপুট calls with and without prompts x seeded stdin contents of 0-6 lines from {x, ' padded ', empty, Bangla digits, 'a b', tabs} with LF/CRLF and with or without a final newline; errors on the first/middle/last line of an 11-line program; ইনপুট corner cases (unterminated last line, blank-only lines, CRLF, 40 consecutive reads, 12 kB line, reads in a loop, read after an error). Each (exit status, stdout, stderr) is compared with the class and output refborno assigns (prompts and trimmed input lines included); in-process replays count stdin reads with the InputRead hook. Non-trivial = distinct decided (program, stdin) or argv shape.",
+		Rule:        "runs of the plain binary: 21 command-line shapes (no argument, .bn names incl. '.bn', dotted, spaced and Bangla names, nested directory; .BN, .bn.txt, no extension, near-miss extensions; 2 and 3 arguments whose scripts would print a marker; missing file, directory named d.bn; thorough: open failures injected with strace); programs of every outcome class (clean, runtime error of 21 kinds, syntax error of 6 kinds, lexical error of 2 kinds, failing ইনপুট) with 0-4 ইনপুট calls with and without prompts x seeded stdin contents of 0-6 lines from {x, ' padded ', empty, Bangla digits, 'a b', tabs} with LF/CRLF and with or without a final newline; errors on the first/middle/last line of an 11-line program; ইনপুট corner cases (unterminated last line, blank-only lines, CRLF, 40 consecutive reads, 12 kB line, reads in a loop, read after an error). Each (exit status, stdout, stderr) is compared with the class and output refborno assigns (prompts and trimmed input lines included); in-process replays count stdin reads with the InputRead hook. Non-trivial = distinct decided (program, stdin) or argv shape.",
 		Assumptions: []string{"usage / bad-extension messages may go to either stream (the property asks for 'a message')", "ইনপুট at end of stdin is out of domain"},
 		Run:         c19Run,
 		Judge:       c19Judge,
